@@ -2739,6 +2739,24 @@ def builtin(it, name, args, kw, n):
             if m is not None:
                 from .front import FuncRef
                 return it.invoke(FuncRef(m, c.module, c), [v], {})
+            for k_ in it.prog.mro(v.cls):
+                if '__hash__' in k_.class_attrs:
+                    hv = it.class_attr(k_, '__hash__', v)
+                    if isinstance(hv, K) and hv.v is None:
+                        raise RaiseEx('TypeError', f"unhashable type: '{v.cls.name}'")
+                    return it.call(hv, [], {}, n)
+                decs = class_decorators(k_)
+                if 'dataclass' in decs:
+                    # the generated __hash__: eq (default True) without frozen / unsafe_hash sets __hash__ to None
+                    def flag(nm, dflt):
+                        e = decs['dataclass'].get(nm)
+                        return e.value if isinstance(e, ast.Constant) else dflt
+                    if flag('eq', True) and not flag('frozen', False) and not flag('unsafe_hash', False):
+                        raise RaiseEx('TypeError', f"unhashable type: '{v.cls.name}'")
+                    if flag('eq', True):
+                        return Term('hash', ListV([v.attrs.get(f, K(None)) for f, _, _ in dataclass_fields(it, k_)], tup=True))
+                if '__eq__' in k_.methods:
+                    raise RaiseEx('TypeError', f"unhashable type: '{v.cls.name}'")        # a class that defines __eq__ without __hash__
         return Term('hash', v)
     if name == 'any' or name == 'all':
         if isinstance(args[0], IterV):
